@@ -198,6 +198,25 @@ func linStep(state, input, output interface{}) (bool, interface{}) {
 				return out == "i:0", st
 			}
 			return out == "i:1", put(val)
+		case "HSET2", "ZADD2":
+			// one command, two fields / members (name and name+"2") with the same value: both or neither are visible
+			n := 0
+			if at < 0 {
+				n++
+			}
+			st1 := put(val)
+			second := linIn{op: map[string]string{"HSET2": "HSET", "ZADD2": "ZADD"}[in.op], arg: name + "2=" + val, api: in.api}
+			_, st2 := linStep(st1, second, "")
+			has2 := false
+			for _, x := range names {
+				if x == name+"2" {
+					has2 = true
+				}
+			}
+			if !has2 {
+				n++
+			}
+			return out == num(n), st2
 		case "HGET":
 			if at < 0 {
 				return out == "(nil)", st
@@ -353,6 +372,8 @@ func linCallAPI(n *nodis.Nodis, key string, in linIn) string {
 	f, _ := strconv.ParseFloat(val, 64)
 	fl := func(v float64) string { return "v:" + strconv.FormatFloat(v, 'f', -1, 64) }
 	switch in.op {
+	case "HSET2":
+		return i(n.HMSet(key, map[string][]byte{name: []byte(val), name + "2": []byte(val)}))
 	case "HSET":
 		return i(n.HSet(key, name, []byte(val)))
 	case "HSETNX":
@@ -406,6 +427,10 @@ func linCallTCP(c *tconn, key string, in linIn) string {
 	switch in.op {
 	case "HSET", "HSETNX", "HINCRBY":
 		args = append(args, name, val)
+	case "HSET2":
+		args = []string{"HSET", key, name, val, name + "2", val}
+	case "ZADD2":
+		args = []string{"ZADD", key, val, name, val, name + "2"}
 	case "HGET", "HDEL", "ZSCORE", "ZREM":
 		args = append(args, name)
 	case "HLEN", "ZCARD":
@@ -498,7 +523,17 @@ func linHistory(n *nodis.Nodis, r *rand.Rand, rounds int, addr string) string {
 			}
 			for j := 0; j < each; j++ {
 				kind := []string{"s", "l", "t", "h", "z"}[rr.Intn(5)]
-				op := linOps[kind][rr.Intn(len(linOps[kind]))]
+				pool := linOps[kind]
+				if addr != "" {
+					// over the network protocol one command can carry several fields / members: it is one write
+					if kind == "h" {
+						pool = append(append([]string{}, pool...), "HSET2", "HSET2", "HLEN")
+					} else if kind == "z" && os.Getenv("VERIF_LIN_ZADD2") != "" {
+						// (off by default until the multi-member ZADD is one transaction: see known finding A-52)
+						pool = append(append([]string{}, pool...), "ZADD2", "ZADD2", "ZCARD")
+					}
+				}
+				op := pool[rr.Intn(len(pool))]
 				in := linIn{op: op, api: addr == ""}
 				switch op {
 				case "SET", "SETNX", "GETSET":
@@ -511,11 +546,11 @@ func linHistory(n *nodis.Nodis, r *rand.Rand, rounds int, addr string) string {
 					in.arg = []string{"a", "b", "c"}[rr.Intn(3)]
 				case "HGET", "HDEL", "ZSCORE", "ZREM":
 					in.arg = []string{"f", "g"}[rr.Intn(2)]
-				case "HSET", "HSETNX":
+				case "HSET", "HSETNX", "HSET2":
 					in.arg = []string{"f", "g"}[rr.Intn(2)] + "=" + []string{"1", "7", "ab", ""}[rr.Intn(4)]
 				case "HINCRBY":
 					in.arg = []string{"f", "g"}[rr.Intn(2)] + "=" + []string{"1", "-2", "10"}[rr.Intn(3)]
-				case "ZADD", "ZADDNX", "ZADDXX", "ZADDGT", "ZADDLT":
+				case "ZADD", "ZADDNX", "ZADDXX", "ZADDGT", "ZADDLT", "ZADD2":
 					// distinct scores per call: a lost conditional update shows as a score no sequential order explains
 					in.arg = []string{"f", "g"}[rr.Intn(2)] + "=" + strconv.Itoa(rr.Intn(40)-5+w*100)
 				case "ZINCRBY":
